@@ -118,6 +118,8 @@ def run(run):
             run.missing("C17.W2", "CellBuffer::bounds")
     # ---------------- W3 legend
     w3(run)
+    # ---------------- W4 blanks at the end of a row are never inside a quoted region
+    w4(run, 5)
     run.assume("str::lines splits on \\n and removes one trailing \\r per line (std documentation)")
 
 
@@ -131,6 +133,44 @@ def witness(header_trail, seps, final, nl):
     parts = ["%s = {%s}" % (n, v) for n, v in ENTRIES]
     s += parts[0] + seps[0] + nl + parts[1] + seps[1] + nl + parts[2] + final.replace("\n", nl)
     return s
+
+
+def w4(run, maxlen):
+    """W4 [N]: quoted text is copied verbatim into a text element, blanks included, so trailing blanks are invisible only if
+    the row scanner can never put them inside a quoted region.  The extracted grammar `line_parse` is run on every row over
+    {letter, blank, quote, backslash} up to length maxlen, followed by each of four blank suffixes: the regions must be the
+    same as without the suffix and none may reach into the suffix (a region ends at a closing quote, never at the end of
+    the row)."""
+    import itertools
+    from ..grammar import GrammarError, load_parser_module
+    from ..charset import Unknown
+    g, mod, gfile = load_parser_module(run)
+    if g is None or "line_parse" not in g.fns:
+        run.missing("C17.W4", "util::parser::line_parse")
+        return
+    n = 0
+    try:
+        for L in range(0, maxlen + 1):
+            for tup in itertools.product('a "\\', repeat=L):
+                text = "".join(tup)
+                body = text.rstrip(" ")
+                if body != text:
+                    continue  # rows ending in a blank are covered as body + suffix
+                ok0, _, ref = g.parse("line_parse", body)
+                ref = [tuple(x) for x in ref] if ok0 and isinstance(ref, list) else None
+                for suf in (" ", "   ", "\t", " \t"):
+                    n += 1
+                    ok, _, out = g.parse("line_parse", body + suf)
+                    got = [tuple(x) for x in out] if ok and isinstance(out, list) else None
+                    if got != ref or any(k >= len(body) for _, k in (got or [])):
+                        run.bad("C17.W4", "quoted-region-reaches-trailing-blanks", gfile,
+                                "the row scanner reads %r as quoted regions %r but %r (same row with trailing blanks) as %r: the blanks at the end of the line become part of a text element" % (body, ref, body + suf, got))
+                        return
+    except (GrammarError, Unknown) as ex:
+        run.bad("C17.W4", "line-grammar-uninterpretable", gfile, "grammar line_parse: %s" % ex)
+        return
+    run.ok("C17.W4", "no quoted region of line_parse reaches into trailing blanks (%d rows x suffixes)" % n, gfile)
+    run.floor("C17.W4", "rows", n, 1000)
 
 
 def w3(run):
